@@ -190,12 +190,12 @@ package sipsp
 //@ func GetMethodNo(buf) (r)
 //@   loop 0 "for _, m := range mthNameLookup[i]"
 //@     invariant -1 <= rangeindex && rangeindex < len(mthNameLookup[i]) && 0 <= i && i < 32 && len(buf) > 0 && i == hashMthName(buf)
-//@     invariant[C16] forall(j, 0, rangeindex+1, !bytesEq(buf, mthNameLookup[i][j].n))
+//@     invariant[C16,C08] forall(j, 0, rangeindex+1, !bytesEq(buf, mthNameLookup[i][j].n))
 //@     cases i 0 31
 //@     decreases len(mthNameLookup[i]) - rangeindex
-//@   ensures[C16,*] "method-range": r >= 1 && r <= MOther
-//@   ensures[C16,*] "method-exact": forall(m, 1, 15, bytesEq(buf, Method2Name[m]) ==> int(r) == m)
-//@   ensures[C16,*] "method-other": r != MOther ==> bytesEq(buf, Method2Name[r])
+//@   ensures[C16,C08,*] "method-range": r >= 1 && r <= MOther
+//@   ensures[C16,C08,*] "method-exact": forall(m, 1, 15, bytesEq(buf, Method2Name[m]) ==> int(r) == m)
+//@   ensures[C16,C08,*] "method-other": r != MOther ==> bytesEq(buf, Method2Name[r])
 
 // ---- name-addr values (From / To / Contact / PAI) ----
 
